@@ -465,6 +465,8 @@ def main(argv=None):
             if path in seen:
                 continue
             seen.add(path)
+            if len(seen) > 3:
+                continue
             print(f"  failing: {msg[:1500]}")
             print(f"VIOLATION property={pid} replay={path}")
         return 1
